@@ -1,5 +1,6 @@
 #!/bin/sh
-# usage: dev_check.sh <unit> [function ...]  -- re-mark the dev file and verify (selected functions of) the assembled unit
+# usage: [INSTALL=1] dev_check.sh <unit> [function ...]  -- re-mark the dev file and verify (selected functions of) the assembled unit;
+# without INSTALL=1 nothing under verus/annot is touched (the checks' cache key covers verus/annot but not verus/dev)
 cd /verif/verus && python3 - "$1" <<'PY'
 import sys, os
 sys.path.insert(0,'/verif/verus')
@@ -10,11 +11,14 @@ curs={}
 for marker, header, rw in run.UNITS[unit][1]:
     curs[marker]=extract.tidy(rw(extract.find_fn(exp,header),[]))
 dev=open('dev/%s_dev.rs'%unit).read()
-open('annot/'+run.UNITS[unit][0],'w').write(mark_annot.mark_file(dev,curs))
+import os
+marked=mark_annot.mark_file(dev,curs)
+if os.environ.get('INSTALL'):
+    open('annot/'+run.UNITS[unit][0],'w').write(marked)   # INSTALL=1: update the annotated file used by the checks
 parts=[open('annot/prelude.rs').read(), run.consts_block()]
 for d in run.DEPENDS.get(unit,[]):
     parts.append(open('annot/'+run.UNITS[d][0]).read())
-parts.append(open('annot/'+run.UNITS[unit][0]).read())
+parts.append(marked)
 open('/tmp/vtest/%s_full.rs'%unit,'w').write(''.join(parts)+'\nfn main() {}\n')
 PY
 u=$1; shift
